@@ -356,3 +356,19 @@ def validate_multi(ctx, seed, count, T=12, maxsp=5, nmax=6, mrts4=0, tau4=0, ri=
     impl.set_backend("py")
     if recs:
         ctx.sample({"session_trace": recs[len(recs) // 2]}, limit=8)
+
+
+def random_pair_records(seed, count, T=60, maxsp=20):
+    """argument tuples beyond the enumeration bound for the code-vs-code twin comparison (C12)"""
+    rnd = random.Random(seed)
+    recs = []
+    for k in range(count):
+        a = _rand_train(rnd, T, maxsp)
+        b = _rand_train(rnd, T, maxsp) if rnd.random() > 0.1 else list(a)
+        if rnd.random() < 0.25 and a:
+            b = sorted(set(b) | set(rnd.sample(a, max(1, len(a) // 2))))[:maxsp]
+        recs.append({"k": "random", "a": a, "b": b, "ts": 0, "te": T,
+                     "mrts": [rnd.choice([0, 0, 2, 6, 10, 40, 100, 300]), 4],
+                     "mtau": [rnd.choice([0, 0, 4, 8, 20, 130, 400]), 4],
+                     "ri": rnd.random() < 0.4, "path": ["random"]})
+    return recs
